@@ -28,6 +28,9 @@ def post_enabled(c, q):
     ok = len(mk) == 1 and len(new) == 1 and (len(sv) == 1) == c.full
     if not ok: return z3.Implies(c.f > 0, z3.BoolVal(False))
     opts = new[0][1][1]
+    # the configuration goes to <checkpoint_dir>/config.yaml (the name restore() looks for), the manager and mkdir use the given directory
+    names_ok = (not c.full or sv[0][1][0] == "ckdir/config.yaml") and mk[0][1][0] == "ckdir" and "ckdir" in new[0][1][0]
+    if not names_ok: return z3.Implies(c.f > 0, z3.BoolVal(False))
     return z3.Implies(c.f > 0, z3.And(toz3(opts["max_to_keep"]) == c.m, z3.BoolVal(opts["create"] is True), toz3(opts["enable_async_checkpointing"]) == c.asyn,
                                       toz3(c.self.attrs["checkpoint_frequency"]) == c.f))
 contract(f"{CK}._setup_checkpointing", scenarios=[("full_config.", setup_sc(True)), ("no_config.", setup_sc(False))],
